@@ -100,6 +100,7 @@ type entryResult struct {
 	}
 	confirmed   []confirmedViolation
 	unconfirmed []string
+	unreproduced []string // witnesses that did not reproduce although another witness of the same assertion did
 	tvChecked   int
 	tvMismatch  []string
 	skipped     bool
@@ -676,6 +677,22 @@ func (r *replayer) confirm(res *entryResult, tc TierCfg) {
 			res.unconfirmed = append(res.unconfirmed, fmt.Sprintf("%s: %s [%s]", v.ID, v.Msg, detail))
 		}
 	}
+	// A witness that did not reproduce is an engine/stub imprecision and normally makes the run inconclusive.
+	// When another witness of the SAME assertion in this entry did reproduce, the violation class is
+	// established by that one; the non-reproducing witnesses are reported in the evidence only.
+	kept := res.unconfirmed[:0]
+	for _, u := range res.unconfirmed {
+		id := u
+		if i := strings.Index(u, ": "); i >= 0 {
+			id = u[:i]
+		}
+		if confirmedID[id] {
+			res.unreproduced = append(res.unreproduced, u)
+			continue
+		}
+		kept = append(kept, u)
+	}
+	res.unconfirmed = kept
 }
 
 func firstMatch(out string, keys ...string) string {
@@ -757,6 +774,7 @@ func writeEvidence(verif, id, tier string, seed int, spec *Spec, results []*entr
 	asserts := map[string]any{}
 	reach := map[string]int{}
 	known := 0
+	var unrepro []string
 	for _, res := range results {
 		if res.rep == nil {
 			if res.skipped {
@@ -791,6 +809,7 @@ func writeEvidence(verif, id, tier string, seed int, spec *Spec, results []*entr
 			reach[res.spec.Func+"/"+k] = n
 		}
 		known += len(res.confirmed)
+		unrepro = append(unrepro, res.unreproduced...)
 		entries = append(entries, map[string]any{
 			"entry": res.spec.Func, "doc": res.spec.Doc, "sched": res.spec.Sched, "params": res.spec.Tiers[tier].Params,
 			"paths": st.Paths, "completed": st.Completed, "pruned_by_assume": st.Pruned, "panicked": st.Panicked,
@@ -853,6 +872,7 @@ func writeEvidence(verif, id, tier string, seed int, spec *Spec, results []*entr
 			"load_s":                        loadT.Seconds(),
 			"packages_in_ssa_program":       npkgs,
 			"confirmed_counterexamples":     known,
+			"witnesses_not_reproduced":      unrepro,
 		},
 		"assumptions": append([]string{
 			"go/ssa (x/tools v0.50.0) lowers the source faithfully; the SMT solver is sound",
